@@ -330,7 +330,7 @@ impl Project {
 // Rendering to .ninja text (plain spelling; C10's renderer adds the spelling
 // dimensions on top of its own abstract manifests).
 
-fn esc_path(p: &str) -> String {
+pub fn esc_path(p: &str) -> String {
     let mut s = String::new();
     for c in p.chars() {
         match c {
